@@ -552,8 +552,13 @@ def classified_mutations(ses, t, doc, rng, depth=0, top=False):
                         'reject-strict' if core_t.is_catch_all() else 'reject', 'unknown subtype'))
         fields = [f for c in irdump.chain(target) for f in c.fields if not f.omitted_caller]
         for f in fields:
+            fcore = _strip(f.data_type)[0]
+            # a field of struct type none of whose fields is required is filled with a default instance when absent
+            # (pinned by the project's own tests; classed unspecified, see DESIGN 5 C06 reading): not "required" here
+            all_optional_struct = isinstance(fcore, Struct) and not fcore.has_enumerated_subtypes() and \
+                not fcore.all_required_fields
             required = not isinstance(f.data_type, Nullable) and not f.has_default and \
-                not _strip(f.data_type)[1]
+                not _strip(f.data_type)[1] and not all_optional_struct
             if f.name in members:
                 if required:
                     out.append((['o', [[a, b] for a, b in doc[1] if a != f.name]], 'reject', 'required field omitted'))
@@ -588,6 +593,8 @@ def classified_mutations(ses, t, doc, rng, depth=0, top=False):
                 rest = ['o', [[a, b] for a, b in doc[1] if a != '.tag']]
                 for d2, v, why in classified_mutations(ses, ft, rest, rng, depth + 1):
                     if d2[0] == 'o' and v != 'accept':
+                        if fnull and not d2[1]:
+                            continue      # only `.tag` is left: that IS the valid tag-only form of a nullable member
                         out.append((['o', [['.tag', tag]] + d2[1]], v, 'struct member %s: %s' % (f.name, why)))
         elif f.name in members and depth < 4:
             for d2, v, why in classified_mutations(ses, ft, members[f.name], rng, depth + 1):
